@@ -221,6 +221,94 @@ func dueTest(f *ast.File) (sum, stop, clock string) {
 	return
 }
 
+// ---- task/backend/coordinator/coordinator.go: what is forwarded to the scheduler ----
+
+func callsOf(n ast.Node) (sched, rel int) {
+	ast.Inspect(n, func(x ast.Node) bool {
+		if c, ok := x.(*ast.CallExpr); ok {
+			switch src(c.Fun) {
+			case "c.sch.Schedule":
+				sched++
+			case "c.sch.Release":
+				rel++
+			}
+		}
+		return true
+	})
+	return
+}
+
+func coordShapes(f *ast.File) (created, updated, deleted, pick string) {
+	unk := func(what string, n ast.Node) string {
+		if n == nil {
+			return "CoordShape.unknown " + leanStr(what+" not found")
+		}
+		return "CoordShape.unknown " + leanStr(src(n))
+	}
+	created, updated, deleted = unk("TaskCreated", nil), unk("TaskUpdated", nil), unk("TaskDeleted", nil)
+	pick = "PickShape.unknown \"NewSchedulableTask not found\""
+	for _, d := range f.Decls {
+		fd, ok := d.(*ast.FuncDecl)
+		if !ok || fd.Body == nil {
+			continue
+		}
+		switch fd.Name.Name {
+		case "TaskCreated":
+			created = unk("", fd.Body)
+			s, r := callsOf(fd.Body)
+			// t, err := NewSchedulableTask(task); if err != nil { return err }; if err = c.sch.Schedule(t); ... ; return nil
+			if s == 1 && r == 0 && len(fd.Body.List) == 4 && strings.HasPrefix(src(fd.Body.List[0]), "t, err := NewSchedulableTask(task)") &&
+				src(fd.Body.List[1]) == "if err != nil { return err }" &&
+				src(fd.Body.List[2]) == "if err = c.sch.Schedule(t); err != nil { return err }" && src(fd.Body.List[3]) == "return nil" {
+				created = "CoordShape.schedule"
+			}
+		case "TaskDeleted":
+			deleted = unk("", fd.Body)
+			s, r := callsOf(fd.Body)
+			if s == 0 && r == 1 && len(fd.Body.List) == 3 && src(fd.Body.List[0]) == "tid := scheduler.ID(id)" &&
+				strings.HasPrefix(src(fd.Body.List[1]), "if err := c.sch.Release(tid); err != nil") && src(fd.Body.List[2]) == "return nil" {
+				deleted = "CoordShape.release"
+			}
+		case "TaskUpdated":
+			updated = unk("", fd.Body)
+			s, r := callsOf(fd.Body)
+			if s != 1 || r != 1 || len(fd.Body.List) != 5 {
+				continue
+			}
+			if src(fd.Body.List[0]) != "sid := scheduler.ID(to.ID)" || src(fd.Body.List[1]) != "t, err := NewSchedulableTask(to)" ||
+				src(fd.Body.List[2]) != "if err != nil { return err }" || src(fd.Body.List[4]) != "return nil" {
+				continue
+			}
+			is, ok := fd.Body.List[3].(*ast.IfStmt)
+			if !ok || is.Else == nil || src(is.Cond) != "to.Status != from.Status && to.Status == string(taskmodel.TaskInactive)" {
+				continue
+			}
+			s1, r1 := callsOf(is.Body)
+			s2, r2 := callsOf(is.Else)
+			if s1 == 0 && r1 == 1 && s2 == 1 && r2 == 0 && strings.Contains(src(is.Body), "c.sch.Release(sid)") && strings.Contains(src(is.Else), "c.sch.Schedule(t)") {
+				updated = "CoordShape.releaseIfBecameInactiveElseSchedule"
+			}
+		case "NewSchedulableTask":
+			pick = "PickShape.unknown " + leanStr(src(fd.Body))
+			var got bool
+			for i, st := range fd.Body.List {
+				if src(st) == "ts := task.CreatedAt" && i+1 < len(fd.Body.List) {
+					want := "if task.LatestScheduled.IsZero() || task.LatestScheduled.Before(task.LatestCompleted) { ts = task.LatestCompleted } else if !task.LatestScheduled.IsZero() { ts = task.LatestScheduled }"
+					if src(fd.Body.List[i+1]) == want {
+						got = true
+					}
+				}
+			}
+			if got && strings.Contains(src(fd.Body), "sch, ts, err = scheduler.NewSchedule(effCron, ts)") &&
+				strings.Contains(src(fd.Body), "return SchedulableTask{Task: task, sch: sch, lsc: ts}, nil") &&
+				strings.Contains(src(fd.Body), "if task.Cron == \"\" && task.Every == \"\" { return SchedulableTask{}, errors.New(\"invalid cron or every\") }") {
+				pick = "PickShape.completedIfScheduledZeroOrOlderElseScheduled"
+			}
+		}
+	}
+	return
+}
+
 func main() {
 	repo := os.Getenv("VERIF_REPO")
 	if repo == "" {
@@ -241,6 +329,13 @@ func main() {
 	if clock != "s.time.Now()" {
 		stop = "Stop.unknown " + leanStr("iterator is not given the scheduler's clock: "+clock)
 	}
+	cpath := filepath.Join(repo, "task/backend/coordinator/coordinator.go")
+	cf, err := parser.ParseFile(fset, cpath, nil, 0)
+	if err != nil {
+		fmt.Fprintln(os.Stderr, "c17extract:", err)
+		os.Exit(1)
+	}
+	cCreated, cUpdated, cDeleted, cPick := coordShapes(cf)
 	var b strings.Builder
 	b.WriteString("/- GENERATED by extract/c17 from task/backend/scheduler/treescheduler.go on every run — do not edit. -/\n")
 	b.WriteString("namespace Kap.C17.Gen\n\n")
@@ -249,6 +344,12 @@ func main() {
 	b.WriteString("/-- `Item.Less` compares these fields lexicographically. -/\ndef lessKeys : List Fld := " + keys + "\n\n")
 	b.WriteString("/-- The due test of `iterator` adds these fields … -/\ndef dueSum : List Fld := " + sum + "\n\n")
 	b.WriteString("/-- … and stops the pass when that time is after the scheduler's clock (`s.time.Now()` read in `process`). -/\ndef dueStop : Stop := " + stop + "\n\n")
+	b.WriteString("/-- What a coordinator callback forwards to the scheduler. -/\ninductive CoordShape where\n  | schedule                                -- Schedule(NewSchedulableTask(task)), errors returned\n  | release                                 -- Release(id)\n  | releaseIfBecameInactiveElseSchedule     -- NewSchedulableTask(to) first; Release iff to.Status != from.Status && to.Status == inactive, else Schedule\n  | unknown (src : String)\nderiving DecidableEq, Repr\n\n")
+	b.WriteString("/-- Which time NewSchedulableTask hands to NewSchedule as last-scheduled. -/\ninductive PickShape where\n  | completedIfScheduledZeroOrOlderElseScheduled\n  | unknown (src : String)\nderiving DecidableEq, Repr\n\n")
+	b.WriteString("def coordCreated : CoordShape := " + cCreated + "\n")
+	b.WriteString("def coordUpdated : CoordShape := " + cUpdated + "\n")
+	b.WriteString("def coordDeleted : CoordShape := " + cDeleted + "\n")
+	b.WriteString("def pickTs : PickShape := " + cPick + "\n\n")
 	b.WriteString("end Kap.C17.Gen\n")
 	out := filepath.Join(lean, "Kap/Gen/C17.lean")
 	if old, err := os.ReadFile(out); err == nil && string(old) == b.String() {
